@@ -341,6 +341,7 @@ class Builder:
         self.node_budget = 400
         self.const_str = []
         self.const_num = []
+        self.forced_class = None
         self.pool = {}
         self.hopeless = set()
         self.in_progress = set()
@@ -387,7 +388,16 @@ class Builder:
             return rng.choice(ok) if ok else None
         pats = [p for p in self.relevant_patterns(cons) if p != XML_GENERAL_PATTERN]
         if not pats:
-            n = want_len if want_len is not None else rng.randint(lo, (hi if hi is not None else lo + 6))
+            if want_len is not None:
+                n = want_len
+            else:
+                k = rng.random()      # boundary lengths are the interesting ones
+                if k < 0.3:
+                    n = lo
+                elif k < 0.6:
+                    n = hi if hi is not None else lo + rng.randint(6, 9)
+                else:
+                    n = rng.randint(lo, (hi if hi is not None else lo + 6))
             alpha = "abcXYZ019 _-./:&<>'\"ä€"
             return "".join(rng.choice(alpha) for _ in range(n))
         tj = self.pattern_tree(rng.choice(pats))
@@ -410,6 +420,8 @@ class Builder:
 
     def harvest(self, text):
         """Literals that the invariants compare against (raises the share of valid instances)."""
+        for m_ in re.finditer(r"constant_set\(\s*values=\[(.*?)\]", text, re.S):
+            self.const_str += re.findall(r'"([^"\\]*)"', m_.group(1))
         for line in text.splitlines():
             if "lambda self" not in line:
                 continue
@@ -419,7 +431,7 @@ class Builder:
     def gen_prim(self, prim, cons):
         P = self.I.PrimitiveType
         rng = self.rng
-        if prim is P.STR and self.const_str and rng.random() < 0.35:
+        if prim is P.STR and self.const_str and rng.random() < (0.5 if len(self.const_str) < 8 else 0.35):
             s = rng.choice(self.const_str)
             if self.str_ok(s, cons):
                 return s
@@ -477,6 +489,13 @@ class Builder:
             cands = self.concrete_candidates(ot)
             if not cands:
                 return None
+            if self.forced_class is not None:
+                want = [c for c in cands if c is self.forced_class]
+                self.forced_class = None
+                if want:
+                    v = self.nested_instance(want[0], depth + 1)
+                    if v is not None:
+                        return v
             self.rng.shuffle(cands)
             for cand in cands[:3]:
                 v = self.nested_instance(cand, depth + 1)
@@ -489,9 +508,21 @@ class Builder:
                 n = lo
             else:
                 n = self.rng.randint(lo, hi if hi is not None else lo + 2)
+            cover = []
+            if (depth == 0 and isinstance(anno.items, I.OurTypeAnnotation)
+                    and isinstance(anno.items.our_type, (I.AbstractClass, I.ConcreteClass))
+                    and self.rng.random() < 0.6):
+                # a list at the top level holds one item of every concrete class it may hold
+                cover = self.concrete_candidates(anno.items.our_type)
+                self.rng.shuffle(cover)
+                if hi is not None:
+                    cover = cover[:hi]
+                n = max(n, len(cover))
             items = []
-            for _ in range(n):
+            for k_ in range(n):
+                self.forced_class = cover[k_] if k_ < len(cover) else None
                 v = self.gen_value(anno.items, cons_map, depth + 1)
+                self.forced_class = None
                 if v is None:
                     return None
                 items.append(v)
